@@ -188,6 +188,8 @@ pub struct Dir {
     pub flush_waits: bool,
     pub close_done: bool,
     pub flush_waker: Option<Waker>,
+    /// the link is slow: nothing in flight is delivered while this is set (the harness releases it later)
+    pub hold: bool,
     /// receiver already got Close/Eof/Err: stream terminated
     pub recv_terminated: bool,
     pub recv_waker: Option<Waker>,
@@ -207,6 +209,7 @@ impl Dir {
             flush_waits: false,
             close_done: false,
             flush_waker: None,
+            hold: false,
             recv_terminated: false,
             recv_waker: None,
             send_waker: None,
